@@ -597,7 +597,7 @@ class Check(PropertyCheck):
         return self._region(rng, p, frame=rng.choice(BAD_FRAMES))
 
     def generate(self, rng, tier):
-        n = 420 if tier == 'quick' else 20000
+        n = int(os.environ.get("C09_N", 1000 if tier == "quick" else 40000))
         cases = []
         for i in range(n):
             p = rng.randint(1, 12)
@@ -854,7 +854,8 @@ class Check(PropertyCheck):
         inp = [real['input'][i] for i in good_idx]
         p1 = real['p1']
         if 'exc' in p1:
-            bad('parse_exception', f'{p1["exc"]}: {p1["msg"]}', exc=p1['exc'], text=text)
+            bad('parse_exception', f'{p1["exc"]}: {p1["msg"]}', exc=p1['exc'], msg=p1['msg'], text=text,
+                numeric_text=[s['text'] for s in specs if expressible(s) and s['cls'] == 'text' and is_py_float(s['text'])])
             return V
         out = p1['regions']
         if len(out) != len(inp):
@@ -911,7 +912,8 @@ class Check(PropertyCheck):
             elif 'p2' in real:
                 p2 = real['p2']
                 if 'exc' in p2:
-                    bad('parse_exception', f'second parse {p2["exc"]}: {p2["msg"]}', exc=p2['exc'], text=real['s2']['text'])
+                    bad('parse_exception', f'second parse {p2["exc"]}: {p2["msg"]}', exc=p2['exc'], msg=p2['msg'],
+                        text=real['s2']['text'], numeric_text=[])
                 else:
                     same = sorted_regions(p2['regions']) == sorted_regions(out)
                     nan_text = any(v == {'special': 'nan'} for r in out
@@ -943,11 +945,15 @@ class Check(PropertyCheck):
         if fid == 'F5':
             return kind == 'nondeterministic' and v.get('only_global_order')
         if fid == 'F19':
-            return kind == 'parse_exception' and v.get('exc') == 'ValueError' and printed_degenerate(v.get('text', ''))
-        if fid == 'F25':
+            return (kind == 'parse_exception' and v.get('exc') == 'ValueError'
+                    and "'text' must be a string" not in v.get('msg', '') and printed_degenerate(v.get('text', '')))
+        if fid == 'F50':
             val = v.get('value') or {}
             if kind == 'not_fixed_point':   # the label became float('nan'), which is not equal to itself
                 return bool(v.get('nan_only'))
+            if kind == 'parse_exception':   # a text region's string was read as a number, which the class rejects
+                return v.get('exc') == 'ValueError' and "'text' must be a string" in v.get('msg', '') \
+                    and bool(v.get('numeric_text'))
             return kind == 'text_changed' and 'str' in val and is_py_float(val['str'])
         return False
 
